@@ -77,7 +77,7 @@ def family(nmax):
                 spec[kind + "_types"] = [k % ncoef for k in range(len(terms))]
                 if kind != "angle":
                     spec[kind + "_coeffs"] = ["%s %d.5 # t%d" % (kind, r, r) for r in range(ncoef)] if terms else []
-                if kind in ("bond", "dihedral") and terms:
+                if kind in ("bond", "dihedral", "improper") and terms:
                     spec["extra_%s_labels" % kind] = ["_x_%s" % kind]
                     spec["extra_%s_fields" % kind] = [["%s%d" % (kind[0], k)] for k in range(len(terms))]
             out.append((shape, spec))
@@ -105,6 +105,11 @@ def enum_cases(tier, seed):
             for i in range(n):
                 for j in range(n - 1):
                     cases.append({"spec": spec, "shape": shape, "op": "del2", "first": [i], "second": [j]})
+        if 2 <= n <= 5:
+            # copy, delete from the copy, then delete from the original: the two objects must not influence each other
+            for i in range(n):
+                for j in range(n):
+                    cases.append({"spec": spec, "shape": shape, "op": "copydel", "first": [i], "second": [j]})
     return cases
 
 
@@ -133,6 +138,20 @@ def oracle(case, stats):
             do_delete(a, case["second"])
             want = M.m_delete(M.m_delete(m, case["first"]), case["second"])
             what = "after del atoms[%r]; del atoms[%r]" % (case["first"], case["second"])
+        elif op == "copydel":
+            with silenced():
+                b = a.copy()
+            do_delete(b, case["first"])
+            gotb = M.resolve(b, "copy after del copy[%r]" % (case["first"],))
+            wantb = M.m_delete(m, case["first"])
+            M.compare_atoms(gotb["atoms"], wantb["atoms"], "copy after del copy[%r]" % (case["first"],), pos_tol=0.0, ordered=True)
+            M.compare_terms(gotb["terms"], wantb["terms"], "copy after del copy[%r]" % (case["first"],))
+            got0 = M.resolve(a, "original after deleting atoms %r from its copy" % (case["first"],))
+            M.compare_atoms(got0["atoms"], m["atoms"], "original after deleting atoms %r from its copy" % (case["first"],), pos_tol=0.0, ordered=True)
+            M.compare_terms(got0["terms"], m["terms"], "original after deleting atoms %r from its copy" % (case["first"],))
+            do_delete(a, case["second"])
+            want = M.m_delete(m, case["second"])
+            what = "original after del copy[%r]; del original[%r]" % (case["first"], case["second"])
         else:
             i = case["index"]
             with silenced():
@@ -179,13 +198,16 @@ def random_case(draw, tier="quick"):
     else:
         k = draw(st.integers(1, n))
         sub = list(draw(st.permutations(range(n))))[:k]
-    op = draw(st.sampled_from(["del", "del", "del", "pop", "del2"]))
+    op = draw(st.sampled_from(["del", "del", "del", "pop", "del2", "copydel"]))
     case = {"spec": spec, "op": op}
     if op == "del":
         case["indices"] = sub
         case["container"] = draw(st.sampled_from(["list", "array"]))
     elif op == "pop":
         case["index"] = draw(st.sampled_from([None] + list(range(-n, n))))
+    elif op == "copydel":
+        case["first"] = sub[:max(1, k // 2)]
+        case["second"] = sorted(draw(st.sets(st.integers(0, n - 1), min_size=1, max_size=min(n, 4))))
     else:
         case["first"] = sub[:max(1, k // 2)]
         rest = n - len(case["first"])
